@@ -185,24 +185,32 @@ Definition agree26 (c : case26) : bool :=
   let m := model_seq (v_graph c) (v_meta c) None (v_reqs c) in
   forallb (fun p => run_outcome_eqb (fst p) (rr_impl (snd p))) (combine m (v_reqs c)).
 
-(* an executable classification of requests, independent of planner and cache:
-   the request is INVALID if an id is unknown / an operator / duplicated, an input contradicts
-   the metadata, or (run only) an output cannot be computed from the supplied inputs *)
-Definition request_invalid (g : graph) (meta : list (id * vmeta)) (r : rreq) : bool :=
-  negb (validate_inputs g meta (rr_ins r)) ||
-  negb (request_plannableb g (map i_id (rr_ins r)) (rr_outs r) (rr_partial r) false).
+(* the property on the implementation's own answer: never a panic or hang (operator errors
+   cannot occur with the harness's operator and count as anomalies); Ok only if the request
+   is valid: inputs agree with the metadata, ids are distinct value nodes, and the operator
+   sequence that was executed is a valid plan from the supplied inputs that produces every
+   requested (resp. returned) output.  Errors are always acceptable answers here; that they are
+   not spurious is C03's exact-error theorem and the model agreement. *)
+Definition request_valid_b (g : graph) (meta : list (id * vmeta)) (ins : list input) (outs : list id)
+           (executed : list id) : bool :=
+  validate_inputs g meta ins &&
+  nodupb (map i_id ins) && nodupb outs &&
+  forallb (is_value_or_const g) (map i_id ins) && forallb (is_value_or_const g) outs &&
+  valid_fromb g false (map i_id ins) executed && completeb g false (map i_id ins) outs executed.
 
-(* the property on the implementation's own answer: never a panic or hang; an invalid request
-   yields an error *)
 Definition req_ok26 (g : graph) (meta : list (id * vmeta)) (r : rreq) : bool :=
   match rr_impl r with
-  | RPanic | RTimeout => false
-  | ROk _ _ => negb (request_invalid g meta r)
-  | _ => true
+  | ROk ex pouts =>
+      if rr_partial r
+      then request_valid_b g meta (rr_ins r) pouts ex && nodupb (rr_outs r) &&
+           forallb (is_value_or_const g) (rr_outs r)
+      else request_valid_b g meta (rr_ins r) (rr_outs r) ex
+  | RErrPlan _ | RErrInvalidInput => true
+  | _ => false
   end.
 
 Definition prop_ok26 (c : case26) : bool := forallb (req_ok26 (v_graph c) (v_meta c)) (v_reqs c).
 
 Definition show26 (c : case26) :=
   (model_seq (v_graph c) (v_meta c) None (v_reqs c),
-   map (request_invalid (v_graph c) (v_meta c)) (v_reqs c)).
+   map (req_ok26 (v_graph c) (v_meta c)) (v_reqs c)).
